@@ -24,6 +24,11 @@ func (m *Machine) argStr(v Value, what string) string {
 					return m.strs[c.k]
 				}
 			}
+			for _, c := range t.cases {
+				if m.gNow != nil && int(c.k) < len(m.strs) && m.feasible(And(m.gNow, Not(c.c))) == Unsat {
+					return m.strs[c.k]
+				}
+			}
 			panic(notEncoded("%s: name argument has %d possible values (make the index concrete)", what, len(t.cases)))
 		}
 		panic(notEncoded("%s: string argument must be a literal", what))
